@@ -27,7 +27,7 @@ ASSUMPTIONS = [
     "interpreter vmon/interp.py (full-row deduplication; witness rows satisfy the key functional dependency)",
     "commutators are specified for order-preserving engines, so lists are compared exactly",
 ]
-MIN_OBS = {"witness_targets_evaluated": 2000, "refused": 100, "full": 300, "partial": 20}
+MIN_OBS = {"repeat_commutes_checked": 500, "witness_targets_evaluated": 2000, "refused": 100, "full": 300, "partial": 20}
 KINDS = ["calc", "dedup", "proj", "sel", "slice", "sort", "join"]
 _state: dict = {}
 
@@ -121,7 +121,14 @@ def gen_case(rng, tier):
         new = gen_op(rng, rng.choice(KINDS), ccols, tag_pool, fixed_pool)
         if new is not None:
             break
-    return {"tcols": tcols, "rows": rows, "current": cur, "new": new}
+    # further requests against the SAME existing relation object (its expression objects carry
+    # cached state that an earlier commute() must not have disturbed)
+    extra = []
+    for _ in range(rng.randint(0, 3)):
+        e = gen_op(rng, rng.choice(["proj", "proj", "sel", "sort", "calc"]), ccols, tag_pool, fixed_pool)
+        if e is not None:
+            extra.append(e)
+    return {"tcols": tcols, "rows": rows, "current": cur, "new": new, "extra": extra}
 
 
 def to_op(spec, fixed_engine):
@@ -222,4 +229,33 @@ def run_case(case):
         out["sig"] = f"{case['new'][0]}>{case['current'][0]}:{outcome}:{','.join(flags)}"
         out["sample"] = {"new": str(operation), "existing": str(current), "first": str(c.first), "second": str(c.second), "done": c.done, "target_rows": len(rows)}
     out["counters"][f"pair_{case['new'][0]}_{case['current'][0]}"] = 1
+    # ---- more commutes against the same existing relation object
+    from .. import interp
+    from ..monitors import structure
+
+    for spec in case.get("extra", []):
+        try:
+            op2, _ = to_op(spec, it)
+            op2, _ = op2._begin_apply(current, None)
+        except R.RelationalAlgebraError:
+            continue
+        if isinstance(op2, R.Identity):
+            continue
+        try:
+            c2 = op2.commute(current)
+        except Exception as exc:  # noqa: BLE001
+            out["violations"].append({"kind": "commute_raised", "detail": f"{exc_str(exc)} new={op2} current={current} (after earlier commutes on the same relation)"})
+            break
+        mon.COUNTERS.clear()
+        vs2 = mon.check_commute(op2, current, c2, leaf_rows, base_rows=rows)
+        for v in vs2:
+            v["detail"] += " (after earlier commutes on the same relation object)"
+        out["violations"].extend(vs2)
+        out["counters"]["repeat_commutes_checked"] = out["counters"].get("repeat_commutes_checked", 0) + 1
+        mon.drain()
+    for e in structure.exprs_of(current.operation):
+        for node in interp.subexpressions(e):
+            if set(node.columns_required) != interp.expr_refs(node):
+                out["violations"].append({"kind": "commute_corrupted_required_columns", "detail": f"{node} of {current} now declares {sorted(map(str, node.columns_required))} but references {sorted(map(str, interp.expr_refs(node)))}"})
+                break
     return out
